@@ -337,6 +337,10 @@ bool parse_normal_range(Hunk& hunk, const std::string& line)
     if (command == 'd')
         --hunk.new_file_range.number_of_lines;
 
+    // A range which ends before it starts holds no lines.
+    hunk.old_file_range.number_of_lines = std::max<LineNumber>(hunk.old_file_range.number_of_lines, 0);
+    hunk.new_file_range.number_of_lines = std::max<LineNumber>(hunk.new_file_range.number_of_lines, 0);
+
     return parser.is_eof();
 }
 
